@@ -136,6 +136,7 @@ def rule_common(chk, prog, tier):
     for target in targets:
         O = oracle(SIGNEDCHAR[target])
         def runner(it):
+            it.MAX_STEPS = 10 ** 9      # one interpreter instance evaluates the whole table
             w = World(prog, it=it, target=target)
             u = universe(w)
             ops = []
